@@ -122,7 +122,7 @@ type replayDoc struct {
 func replayDir() string {
 	d := os.Getenv("VERIF_REPLAY_DIR")
 	if d == "" {
-		d = "/verif/replays/adhoc"
+		d = verifRoot() + "/replays/adhoc"
 	}
 	return d
 }
@@ -185,7 +185,7 @@ func loadReplay(t *testing.T) (replayDoc, bool) {
 // replaysFor lists the committed regression inputs of a property.
 func replaysFor(prop string) []string {
 	var out []string
-	for _, dir := range []string{"/verif/findings", "/verif/regress"} {
+	for _, dir := range []string{verifRoot() + "/findings", verifRoot() + "/regress"} {
 		m, _ := filepath.Glob(filepath.Join(dir, prop+"-*.json"))
 		out = append(out, m...)
 	}
@@ -205,7 +205,7 @@ type finding struct {
 }
 
 func loadFindings() []finding {
-	b, err := os.ReadFile("/verif/known_findings.json")
+	b, err := os.ReadFile(verifRoot() + "/known_findings.json")
 	if err != nil {
 		return nil
 	}
@@ -296,3 +296,6 @@ func failNoShrink(doc replayDoc, v *drv.Violation) {
 	fmt.Printf("VIOLATION-FOUND property=%s replay=%s\n%s\n", doc.Property, p, v.Msg)
 	os.Exit(1)
 }
+
+// verifRoot is the framework directory (bin/check exports VERIF_ROOT; default /verif).
+func verifRoot() string { return getenv("VERIF_ROOT", "/verif") }
